@@ -362,6 +362,14 @@ func init() {
 			return nil, fmt.Errorf("chain/momentum_events.go: broadcastDeleteMomentum not found")
 		}
 		f.strList("BroadcastDeleteMomentumStmts", bodyStmts(fset5, bd.Body.List))
+		// the listener table itself: the pool and the consensus layer are told about a deleted momentum only while they are in it
+		for _, fn := range [][2]string{{"broadcastInsertMomentum", "BroadcastInsertMomentumStmts"}, {"Register", "ListenerRegisterStmts"}, {"UnRegister", "ListenerUnRegisterStmts"}} {
+			fd := findFunc(evf, "momentumEventManager", fn[0])
+			if fd == nil || fd.Body == nil {
+				return nil, fmt.Errorf("chain/momentum_events.go: %s not found", fn[0])
+			}
+			f.strList(fn[1], bodyStmts(fset5, fd.Body.List))
+		}
 		fset6, cf, err := parseFile(repo, "chain/chain.go")
 		if err != nil {
 			return nil, err
